@@ -2,6 +2,7 @@ import ProfiVerif.Driver.Codec
 import ProfiVerif.Driver.PhyRx
 import ProfiVerif.Driver.Gap
 import ProfiVerif.Driver.Diag
+import ProfiVerif.Driver.Apps
 open PV PV.Driver
 
 /-
@@ -16,6 +17,8 @@ def main (args : List String) : IO UInt32 := do
   | ["model", "codec"] => engineLoop (fun (_ : Unit) l => ((), (stepCodec (splitWords l)).getD "bad-op")) () inp out; return 0
   | ["model", "decoder"] => engineLoop (fun (_ : Unit) l => ((), (stepDecoder (splitWords l)).getD "bad-op")) () inp out; return 0
   | ["model", "phyrx"] => engineLoop stepPhyRx [] inp out; return 0
+  | ["model", "apps"] => engineLoop (fun (st : AppsState) l => stepApps st (splitWords l)) {} inp out; return 0
+  | ["oracle", "C18", o, i] => oracleLoop oracleC18 {} o i
   | ["model", "diag"] => engineLoop (fun (st : Option PV.Diag.PState) l => stepDiag st (splitWords l)) none inp out; return 0
   | ["oracle", "C17", o, i] => oracleLoop oracleC17 { cap := 0, prev := "last=-" } o i
   | ["model", "gap"] => engineLoop (fun (_ : Unit) l => ((), stepGap l)) () inp out; return 0
